@@ -10,6 +10,7 @@ arguments naming fields make sense on every generated table):
 Profiles change the mix; `ragged` makes some rows short or long.
 """
 import datetime
+import fractions
 import decimal
 
 from .canon import enc
@@ -87,7 +88,15 @@ def gen_table(rng, maxrows=8, minrows=0, profile=None, ragged=None,
     return [[enc(c) for c in row] for row in rows]
 
 
-def gen_sort_table(rng, maxrows=8, nfields=None, ragged=None, minrows=0):
+# numbers that are equal (==) to numbers petl ranks differently: Fraction
+# (like a numpy scalar) is not among the types the ordering calls numbers,
+# so 1 < Fraction(1) although 1 == Fraction(1)
+_F = fractions.Fraction
+EQNUM_VALUES = [0, 1, 2, _F(1), _F(2), _F(0), _F(1, 2), 1.0, True, None, 'a']
+
+
+def gen_sort_table(rng, maxrows=8, nfields=None, ragged=None, minrows=0,
+                   eqnum=False):
     """Tables over the conservative value domain of the reference sort."""
     nf = nfields or rng.randint(1, 4)
     hdr = FIELDS[:nf]
@@ -97,7 +106,12 @@ def gen_sort_table(rng, maxrows=8, nfields=None, ragged=None, minrows=0):
     # few distinct values per column -> duplicate keys
     pools = []
     kind = rng.choice(['ints', 'mixed', 'mixed', 'strs', 'few'])
+    if eqnum:
+        kind = 'eqnum'
     for _ in hdr:
+        if kind == 'eqnum':
+            pools.append(rng.sample(EQNUM_VALUES, rng.randint(3, 6)))
+            continue
         if kind == 'ints':
             pool = [rng.randint(0, 3) for _ in range(3)] + [None]
         elif kind == 'strs':
